@@ -496,6 +496,20 @@ theorem doLog_trace (s s' : St) (h : doLog s = .ok s') :
         · rename_i hem; cases h; simp [hem]
         · rename_i hem; cases h; simp [hem]
 
+/-- A configured logger execution that completes is recorded exactly once in the ghost trace, with
+the rules resolved in the state at that moment. -/
+theorem doLog_records (s s' : St) (rs : List RuleSt) (hr : s.rules = some rs) (h : doLog s = .ok s') :
+    s'.trace = s.trace ++ [(resolve s.env rs, getIters s.env)] := by
+  unfold doLog at h
+  simp only [hr] at h
+  cases he : (evalRules s.env rs []).1 with
+  | error e => simp [he] at h
+  | ok step =>
+    simp only [he] at h
+    split at h
+    · cases h; rfl
+    · cases h; rfl
+
 def TraceOk (s s' : St) : Prop :=
   ∃ tr, s'.trace = s.trace ++ tr ∧ runExecs iterName tr s.log = .ok s'.log
 
